@@ -103,9 +103,10 @@ class Abstract:
 
 
 class Opaque(Abstract):
-    def __init__(self, tag="opaque", truthy=None):
+    def __init__(self, tag="opaque", truthy=None, parts=None):
         self.tag = tag
         self.truthy = truthy
+        self.parts = list(parts) if parts else []  # concrete / abstract fragments a text was built from
 
     def __repr__(self):
         return "<%s>" % self.tag
@@ -155,9 +156,10 @@ class AText(Abstract):
 class Atom(Abstract):
     """A value known only up to equality: atoms with the same ``klass`` are equal."""
 
-    def __init__(self, name, klass):
+    def __init__(self, name, klass, is_str=True):
         self.name = name
         self.klass = klass
+        self.is_str = is_str
 
     def __eq__(self, other):
         return isinstance(other, Atom) and other.klass == self.klass
@@ -609,13 +611,18 @@ class Interp:
             values[name] = value
         if arguments.vararg is not None:
             values[arguments.vararg.arg] = tuple(args[len(params) :])
+        extra_keywords = {}
         for name, value in kwargs.items():
             if name in values:
                 raise Undecided("duplicate argument %s for %s" % (name, info.qualname))
             if name not in params and name not in [a.arg for a in arguments.kwonlyargs]:
                 if arguments.kwarg is None:
                     raise Undecided("unexpected keyword %s for %s" % (name, info.qualname))
+                extra_keywords[name] = value
+                continue
             values[name] = value
+        if arguments.kwarg is not None:
+            values[arguments.kwarg.arg] = extra_keywords
         default_frame = Frame(None, info.module, frame.parent)
         first_default = len(params) - len(defaults)
         for index, name in enumerate(params):
@@ -768,7 +775,7 @@ class Interp:
             if name == "join":
                 items = list(self.iterate(args[0]))
                 if any(not isinstance(i, str) for i in items):
-                    return Opaque("str")
+                    return Opaque("str", None, [receiver] + items if receiver else items)
                 return receiver.join(items)
         if name == "index" and isinstance(receiver, (list, tuple)):
             for position, item in enumerate(receiver):
@@ -1386,6 +1393,11 @@ class Interp:
         return -operand
 
     def binop(self, op, left, right):
+        hook = self.externals.get("binop")
+        if hook is not None:
+            result = hook(self, [op, left, right], {})
+            if result is not NotImplemented:
+                return result
         if isinstance(left, RInt) or isinstance(right, RInt):
             lv = left.value if isinstance(left, RInt) else left
             rv = right.value if isinstance(right, RInt) else right
@@ -1398,7 +1410,7 @@ class Interp:
                     return RInt(lv * rv)
                 raise Undecided("operator %s leaves the region domain" % type(op).__name__)
             if isinstance(op, ast.Mod) and isinstance(lv, str):
-                return Opaque("str", True)
+                return Opaque("str", True, _fragments(left) + _fragments(right))
             raise Undecided("region arithmetic with %r, %r" % (left, right))
         if isinstance(left, Sym) or isinstance(right, Sym):
             if isinstance(op, ast.Mult):
@@ -1408,7 +1420,7 @@ class Interp:
                 if other == 1:
                     return sym
             if isinstance(op, ast.Mod) and isinstance(left, str):
-                return Opaque("str", True)
+                return Opaque("str", True, _fragments(left) + _fragments(right))
             raise Undecided("arithmetic %s on order symbol" % type(op).__name__)
         if isinstance(left, Abstract) or isinstance(right, Abstract) or _has_abstract(left) or _has_abstract(right):
             if isinstance(op, (ast.Mod, ast.Add)) and (isinstance(left, (str, Opaque, AText)) or isinstance(right, (str, Opaque, AText))):
@@ -1417,7 +1429,7 @@ class Interp:
                     truthy = True
                 if isinstance(left, Opaque) and left.truthy or isinstance(right, Opaque) and right.truthy:
                     truthy = True
-                return Opaque("str", truthy)
+                return Opaque("str", truthy, _fragments(left) + _fragments(right))
             if isinstance(op, ast.Add) and isinstance(left, (list, tuple)) and isinstance(right, (list, tuple)):
                 return left + right
             if isinstance(op, ast.Mult) and isinstance(left, (list, tuple, str)) and _is_int(right):
@@ -1425,9 +1437,9 @@ class Interp:
             if isinstance(op, ast.Mult) and isinstance(right, (list, tuple, str)) and _is_int(left):
                 return left * right
             raise Undecided("operator %s on %r, %r" % (type(op).__name__, left, right))
-        if isinstance(left, (Obj, FuncRef, ClassRef)) or isinstance(right, (Obj, FuncRef, ClassRef)):
+        if isinstance(left, (Obj, FuncRef, ClassRef)) or isinstance(right, (Obj, FuncRef, ClassRef)) or _has_object(right):
             if isinstance(op, ast.Mod) and isinstance(left, str):
-                return Opaque("str", True)
+                return Opaque("str", True, _fragments(left) + _fragments(right))
             if isinstance(op, ast.Add) and (isinstance(left, str) or isinstance(right, str)):
                 self.raise_("builtins.TypeError", "str + object")
             raise Undecided("operator on object")
@@ -1485,6 +1497,27 @@ class _Zip:
 
 def _is_int(value):
     return isinstance(value, int) and not isinstance(value, bool)
+
+
+def _has_object(value):
+    if isinstance(value, (tuple, list)):
+        return any(isinstance(item, (Obj, FuncRef, ClassRef)) or _has_object(item) for item in value)
+    return False
+
+
+def _fragments(value):
+    if isinstance(value, Opaque):
+        return list(value.parts) if value.parts else [value]
+    if isinstance(value, (tuple, list)):
+        result = []
+        for item in value:
+            result.extend(_fragments(item))
+        return result
+    return [value]
+
+
+def fragments(value):
+    return _fragments(value)
 
 
 def _has_abstract(value):
@@ -1661,7 +1694,7 @@ def _isinstance(interp, args, kwargs):
         if isinstance(candidate, ExtRef):
             name = candidate.name
             if name == "builtins.str":
-                if isinstance(value, (str, AText)):
+                if isinstance(value, (str, AText)) or (isinstance(value, Atom) and value.is_str):
                     return True
                 if isinstance(value, Opaque):
                     if value.tag == "str":
@@ -1820,7 +1853,7 @@ def _str(interp, args, kwargs):
         return str(value)
     if isinstance(value, AText):
         return value
-    return Opaque("str", True)
+    return Opaque("str", True, _fragments(value))
 
 
 @_ext("builtins.repr")
@@ -1828,7 +1861,7 @@ def _repr(interp, args, kwargs):
     (value,) = args
     if isinstance(value, (str, int)) and not isinstance(value, Abstract) or value is None:
         return repr(value)
-    return Opaque("str", True)
+    return Opaque("str", True, _fragments(value))
 
 
 @_ext("builtins.any")
